@@ -3,6 +3,7 @@
   Property theorems only.
 -/
 import Astm.Lemmas.Heap
+import Astm.Lemmas.HeapList
 import Astm.Generated.Schemas
 
 namespace Astm.C20
@@ -31,6 +32,7 @@ def target : Op → Option Nat
   | .appendRep r _ _ => some r
   | .assignComp r _ _ => some r
   | .assignNone r _ => some r
+  | .relist r _ _ _ => some r
 
 theorem mutateComp_other (W : World) (hW : WF W) (a b : Nat) (ra rb : Rec) (hab : b ≠ a)
     (ha : W.recs[a]? = some ra) (hb : W.recs[b]? = some rb) (id0 : Nat) (hid0 : id0 ∈ recRefs W.heap ra)
@@ -45,7 +47,8 @@ theorem mutateComp_other (W : World) (hW : WF W) (a b : Nat) (ra rb : Rec) (hab 
     | comp kvs => exact ⟨rfl, set_cell_other_record W hW a b ra rb hab ha hb id0 hid0 _⟩
 
 /-- Modifying one record object — a sub-value of a component, a sub-value of one occurrence of a
-    repeated field, appending an occurrence, replacing a component — never changes what any *other*
+    repeated field, appending an occurrence, any list surgery on the occurrences (insert, delete, pop,
+    replace, extend, `+=`, `*=`), replacing a component — never changes what any *other*
     record renders, in every world in which records do not share objects. -/
 theorem mutation_leaves_other_records_unchanged (W : World) (hW : WF W) (op : Op) (a b : Nat)
     (ht : target op = some a) (hab : b ≠ a) : render (step W op) b = render W b := by
@@ -107,6 +110,20 @@ theorem mutation_leaves_other_records_unchanged (W : World) (hW : WF W) (op : Op
         simp only [render]
         rw [List.getElem?_set_ne (fun e => hab e.symm), hb]
         rfl
+    | relist r fld news sel =>
+      simp only [step]
+      cases hs : slotOf W r fld with
+      | none => simp [render, hb]
+      | some s =>
+        cases s with
+        | scalar v' => simp [render, hb]
+        | comp id => simp [render, hb]
+        | rep lid =>
+          simp only []
+          split
+          · simp only [render]
+            rw [(allocComps_spec news W).2.2.1, hb]; rfl
+          · simp [render, hb]
   | some rb =>
     have hrender : render W b = renderRec W.heap rb := by simp [render, hb]
     rw [hrender]
@@ -217,6 +234,39 @@ theorem mutation_leaves_other_records_unchanged (W : World) (hW : WF W) (op : Op
         simp only [render]
         rw [List.getElem?_set_ne (fun e => hab e.symm), hb]
         rfl
+    | relist r fld news sel =>
+      simp only [target, Option.some.injEq] at ht; subst ht
+      simp only [step]
+      cases hs : slotOf W r fld with
+      | none => simp [render, hb]
+      | some s =>
+        cases s with
+        | scalar v' => simp [render, hb]
+        | comp id => simp [render, hb]
+        | rep lid =>
+          simp only []
+          obtain ⟨ra, hra, hl⟩ : ∃ ra, W.recs[r]? = some ra ∧ ra.lookup fld = some (.rep lid) := by
+            unfold slotOf at hs
+            cases hr : W.recs[r]? with
+            | none => simp [hr] at hs
+            | some ra => exact ⟨ra, rfl, by simpa [hr] using hs⟩
+          cases hh : W.heap[lid]? with
+          | none => simp [render, hb]
+          | some o =>
+            cases o with
+            | comp kvs' => simp [render, hb]
+            | list ids =>
+              obtain ⟨h1, _, h3, _⟩ := allocComps_spec news W
+              simp only [render, h3, hb, Option.bind_some, h1]
+              apply renderRec_congr
+              intro id hid
+              have hlid : lid ∈ recRefs W.heap ra := slot_mem_refs W.heap ra fld _ hl lid (by simp [slotRefs])
+              have hne : lid ≠ id := by
+                intro e; subst e
+                exact hW.disjoint r b ra rb (fun e => hab e.symm) hra hb lid hlid hid
+              have hlt : id < W.heap.length := hW.bound rb (List.mem_of_getElem? hb) id hid
+              rw [List.getElem?_set_ne hne, List.getElem?_append_left hlt]
+
 
 /-- Creating a record (in a world where records do not share objects and no class-level default
     object exists): the new record renders exactly to the pure `wrap` value of its input — it does
@@ -294,6 +344,10 @@ theorem construct_is_pure_and_isolated (W : World) (hW : WF W) (hs : W.shared = 
             omega
           · exact hij (hi1.trans hj1.symm)
 
+theorem world_with_heap (W1 W : World) (H : List Obj) (h3 : W1.recs = W.recs) (h4 : W1.shared = W.shared) :
+    ({ W1 with heap := H } : World) = { W with heap := H } := by
+  cases W1; cases W; simp_all
+
 theorem mutateComp_shared (W : World) (id : Nat) (sub : String) (v : V) :
     (mutateComp W id sub v).shared = W.shared := by
   unfold mutateComp
@@ -366,6 +420,45 @@ theorem step_preserves_independence (W : World) (hW : WF W) (hs : W.shared = [])
     cases hr : W.recs[r]? with
     | none => exact ⟨hW, hs⟩
     | some rec => exact ⟨assignNone_wf W hW r rec hr fld, hs⟩
+  | relist r fld news sel =>
+    simp only [step]
+    cases hsl : slotOf W r fld with
+    | none => exact ⟨hW, hs⟩
+    | some s =>
+      cases s with
+      | scalar _ => exact ⟨hW, hs⟩
+      | comp _ => exact ⟨hW, hs⟩
+      | rep lid =>
+        simp only []
+        cases hl : W.heap[lid]? with
+        | none => exact ⟨hW, hs⟩
+        | some o =>
+          cases o with
+          | comp _ => exact ⟨hW, hs⟩
+          | list ids =>
+            obtain ⟨ra, hra, hlk⟩ : ∃ ra, W.recs[r]? = some ra ∧ ra.lookup fld = some (.rep lid) := by
+              unfold slotOf at hsl
+              cases hr : W.recs[r]? with
+              | none => simp [hr] at hsl
+              | some ra => exact ⟨ra, rfl, by simpa [hr] using hsl⟩
+            have hold : ∀ x ∈ ids, x < W.heap.length := fun x hx =>
+              hW.bound ra (List.mem_of_getElem? hra) x
+                (slot_mem_refs W.heap ra fld _ hlk x (by simp [slotRefs, hl, hx]))
+            obtain ⟨h1, h2, h3, h4⟩ := allocComps_spec news W
+            have hp := pick_members W.heap.length ids news.length sel
+            have hwf := relist_wf W hW lid ids (pick ids (List.range' W.heap.length news.length) sel)
+              (news.map Obj.comp) hl (fun x hx => (hp x hx).1)
+              (fun x hx => by
+                rcases (hp x hx).2 with h | h
+                · have := hold x h; omega
+                · simpa using h)
+            simp only []
+            refine ⟨?_, by rw [h4]; exact hs⟩
+            have hw : ({ (allocComps W news).1 with heap := (allocComps W news).1.heap.set lid (.list (pick ids (allocComps W news).2 sel)) } : World) = { W with heap := (W.heap ++ news.map Obj.comp).set lid (.list (pick ids (List.range' W.heap.length news.length) sel)) } := by
+              rw [h1, h2]
+              exact world_with_heap _ _ _ h3 h4
+            rw [hw]
+            exact hwf
 
 theorem wf_empty : WF {} := ⟨by intro r hr; simp at hr, by intro i j ri rj _ hi; simp at hi⟩
 
@@ -405,6 +498,22 @@ theorem shared_default_leaks :
     let W0 : World := { heap := [.comp [("name", none)]], recs := [], shared := [("sender", 0)] }
     let W := run W0 [.construct S [] [], .setSub 0 "sender" "name" (some ['X']), .construct S [] []]
     render W 1 = some [("sender", .comp [("name", some ['X'])])] := by
+  decide
+
+/-- non-vacuity of the list-surgery operation: two records built from the same input; inserting an occurrence in
+    front, doubling the list (`*= 2`, the same objects twice) and editing occurrence 1 of the first record changes
+    occurrences 1 and 3 of that record and nothing of the other one -/
+theorem example_list_surgery :
+    let sub : Scalar := ⟨"name", .text, false, none, .none, [], .plain, none⟩
+    let f : FieldSpec := ⟨"flags", .repeated, ⟨"", .plain, false, none, .none, [], .plain, none⟩, [sub], .none, .none⟩
+    let S : RecordSpec := ⟨"R", "Rec", [f]⟩
+    let wire : Record := [.rep [[some ['a']]]]
+    let W := run {} [.construct S [] wire, .construct S [] wire,
+      .relist 0 "flags" [[("name", some ['n'])]] [.inr 0, .inl 0],
+      .relist 0 "flags" [] [.inl 0, .inl 1, .inl 0, .inl 1],
+      .setRepSub 0 "flags" 1 "name" (some ['X'])]
+    render W 0 = some [("flags", .rep [[("name", some ['n'])], [("name", some ['X'])], [("name", some ['n'])], [("name", some ['X'])]])] ∧
+    render W 1 = some [("flags", .rep [[("name", some ['a'])]])] := by
   decide
 
 end Astm.C20
